@@ -93,6 +93,7 @@ var seedExpectations = []seedExpect{
 	// hand-made positive controls (controls/)
 	{"globals-write", "C12", "globals.nowrite", "typeNameCache"},
 	{"rzsw-nomerge", "C02", "spirv.mergefirst", "emitImageLoadRZSW"},
+	{"if-block-dropped", "C02", "spirv.blockstate", "emitIf"},
 }
 
 // overlayFromPatch materialises the files a unified diff touches, patches
